@@ -52,6 +52,14 @@ structure Quirks where
   exportParamTruthy : Bool := false
   /-- cirq exporter raises on `Barrier` / `NopGate` -/
   cirqNopRaises : Bool := false
+  /-- `Grover.__init__` adds `_ret_phased` and an MCZ to the oracle's own circuit object -/
+  groverMutatesOracle : Bool := false
+  /-- `oraclize` assigns `qf.name = "_oracle"` to its argument when it is called `oracle` -/
+  oraclizeRenames : Bool := false
+  /-- `QlassF.from_function`: `exec(f, globals())` writes into the module `qlasskit.qlassfun` -/
+  execIntoModuleGlobals : Bool := false
+  /-- `QlassF.from_function`: `eval(name)` finds the function's own locals first -/
+  evalSeesLocals : Bool := false
   deriving Repr, DecidableEq, Inhabited
 
 def Quirks.none : Quirks := {}
@@ -78,6 +86,10 @@ def Quirks.ofList (l : List String) : Quirks :=
     qasmFormalsFromKeys := l.contains "qasmFormalsFromKeys"
     qasmParam2f := l.contains "qasmParam2f"
     exportParamTruthy := l.contains "exportParamTruthy"
-    cirqNopRaises := l.contains "cirqNopRaises" }
+    cirqNopRaises := l.contains "cirqNopRaises"
+    groverMutatesOracle := l.contains "groverMutatesOracle"
+    oraclizeRenames := l.contains "oraclizeRenames"
+    execIntoModuleGlobals := l.contains "execIntoModuleGlobals"
+    evalSeesLocals := l.contains "evalSeesLocals" }
 
 end QV
